@@ -428,4 +428,21 @@ def fileslice (h : Heuristic) (idx : List IdxItem) (shape : List Nat) (isz off f
   let out := r.index sels
   pure (orient o out.shape, out.data)
 
+/-! ### predict_shape (fileslice.py:236-266) -/
+
+/-- loop of `predict_shape` over the canonical items: `None` → 1, int → axis dropped,
+    slice → `slice2len(slicer, in_shape[real_no - 1])` -/
+def predictLoop : List Item → List Nat → List Nat
+  | [], _ => []
+  | .newaxis :: rest, shape => 1 :: predictLoop rest shape
+  | .int _ :: _, [] => []          -- Python: IndexError on in_shape[...]; unreachable after canonical_slicers
+  | .slice _ :: _, [] => []
+  | .int _ :: rest, _ :: shape => predictLoop rest shape
+  | .slice s :: rest, n :: shape => slice2len s n :: predictLoop rest shape
+
+/-- `predict_shape(sliceobj, in_shape)` -/
+def predictShape (idx : List IdxItem) (shape : List Nat) : Except Err (List Nat) := do
+  let items ← canonicalSlicers idx shape
+  pure (predictLoop items shape)
+
 end Nb.C06
